@@ -129,32 +129,40 @@ func (c *Check) reference() {
 		// (the worker would die on them too) and evaluate again
 		crash := c.isolateCrashers(corpus)
 		if len(crash) == 0 {
-			harnessFail("reference evaluator failed but no single input crashes it: %v %v", errF, errR)
-		}
-		nc := &common.Corpus{}
-		for i := range corpus.In {
-			if crash[i] {
-				c.Ref.ExcludedInputs++
-				if len(c.Ref.Crashers) < 10 {
-					c.Ref.Crashers = append(c.Ref.Crashers, trunc(corpus.In[i], 60))
-				}
-				continue
+			// not attributable to one input (a transient failure, or a crash that
+			// needs a history): one more attempt before giving up
+			fwd, errF = refCorpus(e, c.CorpusP, filepath.Join(e.Scratch, "ref_fwd.tsv"), false)
+			rev, errR = refCorpus(e, c.CorpusP, filepath.Join(e.Scratch, "ref_rev.tsv"), true)
+			if errF != nil || errR != nil {
+				harnessFail("reference evaluator failed but no single input crashes it: %v %v", errF, errR)
 			}
-			nc.In = append(nc.In, corpus.In[i])
-			nc.Flags = append(nc.Flags, corpus.Flags[i])
 		}
-		corpus = nc
-		c.Corpus = corpus
-		c.CStats.Total = corpus.Len()
-		must(corpus.Write(c.CorpusP))
-		c.Log("excluded %d input(s) that kill the process outright (not recoverable by the caller): %q", len(crash), c.Ref.Crashers)
-		fwd, errF = refCorpus(e, c.CorpusP, filepath.Join(e.Scratch, "ref_fwd.tsv"), false)
-		rev, errR = refCorpus(e, c.CorpusP, filepath.Join(e.Scratch, "ref_rev.tsv"), true)
-		if errF != nil {
-			harnessFail("%v", errF)
-		}
-		if errR != nil {
-			harnessFail("%v", errR)
+		if len(crash) > 0 {
+			nc := &common.Corpus{}
+			for i := range corpus.In {
+				if crash[i] {
+					c.Ref.ExcludedInputs++
+					if len(c.Ref.Crashers) < 10 {
+						c.Ref.Crashers = append(c.Ref.Crashers, trunc(corpus.In[i], 60))
+					}
+					continue
+				}
+				nc.In = append(nc.In, corpus.In[i])
+				nc.Flags = append(nc.Flags, corpus.Flags[i])
+			}
+			corpus = nc
+			c.Corpus = corpus
+			c.CStats.Total = corpus.Len()
+			must(corpus.Write(c.CorpusP))
+			c.Log("excluded %d input(s) that kill the process outright (not recoverable by the caller): %q", len(crash), c.Ref.Crashers)
+			fwd, errF = refCorpus(e, c.CorpusP, filepath.Join(e.Scratch, "ref_fwd.tsv"), false)
+			rev, errR = refCorpus(e, c.CorpusP, filepath.Join(e.Scratch, "ref_rev.tsv"), true)
+			if errF != nil {
+				harnessFail("%v", errF)
+			}
+			if errR != nil {
+				harnessFail("%v", errR)
+			}
 		}
 	}
 	if len(fwd) != corpus.Len() || len(rev) != corpus.Len() {
